@@ -456,7 +456,15 @@ Definition respond_iso_request (r:rnode) (requester:Z) (addressed:bool) (rpgn i:
     let '(r2, ev2, _) := rsend r1 (pgn_list_msg r1 i requester 1 def_receive_messages (x_rx (get_devx r1 i))) i in
     (r2, ev1 ++ ev2)
   else if rpgn =? 126996 then send_product_info r i
-  else if rpgn =? 126998 then send_config_info r i
+  else if rpgn =? 126998 then
+    (* no configuration information at all (all three strings null) is modelled as the empty payload: refused to the requester, silent on broadcast *)
+    match c_confinfo (r_cfg r) with
+    | [] => if addressed then
+              let m := {| m_pri := 6; m_pgn := 59392; m_src := 15; m_dst := requester; m_data := [1; 255; 255; 255; 255] ++ le_bytes 3 rpgn; m_tp := false |} in
+              let '(r1, ev, _) := rsend r m i in (r1, ev)
+            else (r, [])
+    | _ :: _ => send_config_info r i
+    end
   else
     let accepted :=
       match c_iso_handler (r_cfg r) with
